@@ -104,6 +104,21 @@ CHECKS = {
          "compiled type; real header words grouped; real cross-deserialization of T's bytes as U (both modes) for every pair "
          "of each mutant family, every pair flagged at design level, every equal-word pair and a seeded sample of the rest.",
          "6 C04"),
+ "C08": ("model checking + conformance replay (loader configurations, owner histories)",
+         "MemCase.tla models the four loaders step by step and the owner's life cycle; TLC checks RegionSound (capacity = length "
+         "rounded up to 64 / 16 / none, live, zero tail for the copying loaders) and LiveWhileReadable over every loader x 8 flag "
+         "sets x every file-length residue modulo 64 x owner histories (move, box, send, Arc with two readers); each terminal "
+         "state is replayed on a real file: store() bytes = serialize() bytes, loaded structure = original value, region "
+         "(through the cfg hook) capacity / alignment / zero tail / containment of every borrowed part, digest stable across "
+         "moves and threads; replayed for the default feature set and for the build without mmap.",
+         "6 C08"),
+ "C09": ("model checking + conformance replay (failure causes x loaders); lifetime part by generated compile probes",
+         "TLC checks ReleasedAtMostOnce, NoLeakOnFailure, ReleasedWhenDropped, StructureBeforeBackend on MemCase.tla over every "
+         "loader x failure cause (wrong type, wrong align hash, corrupt, truncated, empty, missing, over-aligned type); each is "
+         "replayed on a real file with the tracking allocator (live heap bytes) and /proc/self/maps (mappings) compared before "
+         "the load, after a failed load and after the drop of a successful one; a canary structure whose Drop reads its "
+         "borrowed slice observes the drop order.",
+         "6 C09"),
 }
 
 
